@@ -131,6 +131,33 @@ def build_ops(tmp, rnd):
     ops["score:dbal-subsampled-triples"] = (lambda seed: np.ascontiguousarray(G.dbal_fast_gauss_scoring_vectorized(pm.copy(), pv.copy(), d.copy(), np.random.default_rng(seed), max_combos=40)).tobytes().hex(),
                                             "dbal-n12-budget40", None)
 
+    # the scorer entry point over several sub-groups of plates in the sub-sampling regime, with posterior samples whose predictions take
+    # a different (tiny) time in every run: the result depends on inputs and seed, not on how the work happens to be scheduled
+    from harness.drivers.c05 import ArrTheta, real_matrix
+    import time as _time
+    tick = [0]
+
+    class SlowTheta(ArrTheta):
+        def predict_conditional_mean(self, data):
+            tick[0] += 1
+            _time.sleep(0.0005 * ((tick[0] * 7919) % 5))
+            return super().predict_conditional_mean(data)
+    gg = np.random.default_rng(9)
+    sizes_ = [2, 3, 1, 2, 2]
+    rows_pl = [p for p, e_ in enumerate(sizes_) for _ in range(e_)]
+    N_ = len(rows_pl)
+    sscr = Screen(treatment_names=np.array([["a", "b"]] * N_, dtype=str), treatment_doses=np.ones((N_, 2)), sample_names=np.array(["s"] * N_, dtype=str),
+                  plate_names=np.array(["p%02d" % p for p in rows_pl], dtype=str))
+    hth = ThetaHolder(n_thetas=6)
+    for _ in range(6):
+        hth.add_theta(SlowTheta(gg.normal(size=N_), np.exp(gg.normal(size=N_))))
+    dd = np.abs(gg.normal(size=(6, 6)))
+    dmat = real_matrix(dd + dd.T)
+    dscorer = G.GaussianDBALScorer(max_chunk=1, max_triples=5)
+    ops["score:GaussianDBALScorer(5 sub-groups, sub-sampled triples)"] = (
+        lambda seed: repr(sorted((int(k), bits(float(v))) for k, v in dscorer.score({p: sscr.get_plate(p) for p in range(len(sizes_))}, dmat, hth, np.random.default_rng(seed), False).items())),
+        "dbal-scorer-subgroups", None)
+
     def sel(seed, scr=scr):
         h = ChunkedScoresHolder(scr.n_plates)
         for p in range(scr.n_plates):
